@@ -16,6 +16,8 @@ var dtlcpScriptAvailable = false
 
 var dtlcpScriptRun func(s scen) (string, string)
 
+var dtlcpScriptHistRun func(s scen) (string, string)
+
 var dtlcpPolicies = map[string]dtlcp.ClientAuthType{
 	"NoClientCert": dtlcp.NoClientCert, "RequestClientCert": dtlcp.RequestClientCert,
 	"RequireAnyClientCert": dtlcp.RequireAnyClientCert, "VerifyClientCertIfGiven": dtlcp.VerifyClientCertIfGiven,
@@ -77,6 +79,11 @@ func runDTLCP(s scen) (string, string) {
 			return dtlcpScriptRun(s)
 		}
 		return " 1.e=0 1.msg=0 1.n=0 1.parse=1 1.c0=- 1.c1=- 1.kx=0 1.cv=none 1.fin=0", "skipped=no-dtlcp-script"
+	case "shist":
+		if dtlcpScriptHistRun != nil {
+			return dtlcpScriptHistRun(s)
+		}
+		return " 1.e=0 1.msg=0 1.n=0 1.parse=1 1.c0=- 1.c1=- 1.kx=0 1.cv=none 1.fin=0", "skipped=no-dtlcp-script"
 	case "hist":
 		cache := dtlcp.NewLRUSessionCache(8)
 		ccfg := dClient(s.cli, dtlcp.NewLRUSessionCache(8))
@@ -86,7 +93,7 @@ func runDTLCP(s scen) (string, string) {
 		ci2, ob2 := dtlcpConn(ccfg, dServer(s.pol2, s.suite, roots2, now2, cache), s, roots2, now2)
 		t2 := ci2.tokens("2")
 		_, nowToks := judgeCerts(ci1.ders, roots2, now2, ci1.ecdhe)
-		return t1 + t2 + fmt.Sprintf(" now0=%s now1=%s", nowToks[0], nowToks[1]), ob1.tokens("1") + ob2.tokens("2")
+		return t1 + t2 + fmt.Sprintf(" 2.offer=%s now0=%s now1=%s", offerTok(ci2.cf), nowToks[0], nowToks[1]), ob1.tokens("1") + ob2.tokens("2")
 	default:
 		ci, ob := dtlcpConn(dClient(s.cli, nil), dServer(s.pol, s.suite, st.Root.Pool, pki.Now, nil), s, st.Root.Pool, pki.Now)
 		return ci.tokens("1"), ob.tokens("1")
